@@ -23,6 +23,8 @@ import os
 
 from hypothesis import strategies as st
 
+from vlib import core
+
 PROPERTY = "C43"
 LEVEL = "exploration"
 RULE = (
@@ -120,12 +122,36 @@ def _why_invalid(ln):
 
 
 def execute(ctx, case):
+    """case = (lines, requests[, lines2, requests2, how]); with a second file the SAME pack is reloaded after it
+    served the first requests (how = 'read_file' on the object, or 'load_server_moduli' via Transport) and the
+    second batch of requests is judged against the second file only."""
     from paramiko.primes import ModulusPack
-    from paramiko.ssh_exception import SSHException
+    from paramiko.transport import Transport
 
-    lines, requests = case
-    requests = [tuple(r) for r in requests]
+    lines, requests = case[0], [tuple(r) for r in case[1]]
     jcase = {"lines": lines, "requests": requests}
+    second = len(case) > 2 and case[2] is not None
+    if second:
+        jcase.update({"lines2": case[2], "requests2": [tuple(r) for r in case[3]], "how": case[4]})
+    how = case[4] if second else "read_file"
+    old_pack = Transport._modulus_pack
+    try:
+        if how == "load_server_moduli":
+            Transport._modulus_pack = None
+            holder = {"pack": None}
+        else:
+            holder = {"pack": ModulusPack()}
+        if not _phase(ctx, jcase, holder, how, lines, requests, 1, second):
+            return False
+        if second:
+            _phase(ctx, jcase, holder, how, case[2], jcase["requests2"], 2, second)
+    finally:
+        Transport._modulus_pack = old_pack
+
+
+def _phase(ctx, jcase, holder, how, lines, requests, phase, second):
+    from paramiko.ssh_exception import SSHException
+    from paramiko.transport import Transport
 
     mods = [ln for ln in lines if ln["k"] == "mod"]
     valid = set()
@@ -157,18 +183,30 @@ def execute(ctx, case):
         classes.append("has-invalid-lines")
     if any(ln["k"] == "raw" for ln in lines):
         classes.append("has-malformed-lines")
-    ctx.case(jcase, nontrivial, classes)
+    if phase == 1:
+        if second:
+            classes.append("history:reload-via-" + how)
+            nontrivial = nontrivial or len(vsizes) >= 1
+        ctx.case(jcase, nontrivial, classes)
 
-    path = os.path.join(ctx.tmpdir(), "moduli")
+    path = os.path.join(ctx.tmpdir(), "moduli%d" % phase)
     with open(path, "w") as f:
         for ln in lines:
             f.write(_text(ln) + "\n")
-    pack = ModulusPack()
     try:
-        pack.read_file(path)
+        if how == "load_server_moduli":
+            if not Transport.load_server_moduli(path):
+                raise core.HarnessError("load_server_moduli did not read %s" % path)
+            holder["pack"] = Transport._modulus_pack
+        else:
+            holder["pack"].read_file(path)
+    except core.HarnessError:
+        raise
     except Exception as e:
         ctx.violation("read_file-raises", type(e).__name__, jcase, repr(e))
-        return
+        return False
+    pack = holder["pack"]
+    jcase = dict(jcase, failing_phase=phase)
 
     for r in requests:
         mn, pf, mx = r
@@ -184,14 +222,14 @@ def execute(ctx, case):
             except SSHException as e:
                 if vsizes:
                     ctx.violation("get_modulus-raises", "SSHException-with-valid-lines", jcase, "request %r: %r" % (r, e))
-                    return
+                    return False
                 break  # (c) satisfied
             except Exception as e:
                 ctx.violation("get_modulus-raises", type(e).__name__, jcase, "request %r: %r" % (r, e))
-                return
+                return False
             if not vsizes:
                 ctx.violation("no-valid-moduli", "no-exception", jcase, "request %r returned a %d-bit group" % (r, got[1].bit_length()))
-                return
+                return False
             g, p = got
             if (g, p) not in valid:
                 whys = by_p.get(p)
@@ -202,7 +240,7 @@ def execute(ctx, case):
                 else:
                     bucket = "generator-differs"
                 ctx.violation("offered-invalid-line", bucket, jcase, "request %r: g=%r p=%d bits, reasons %r" % (r, g, p.bit_length(), whys))
-                return
+                return False
             size = p.bit_length()
             if want is not None and size != want:
                 if size < mn:
@@ -217,14 +255,20 @@ def execute(ctx, case):
                     "size-selection", bucket, jcase, "request (min=%d, prefer=%d, max=%d): valid sizes %r, in range %r, expected %d, offered %d" % (mn, pf, mx, vsizes, rng, want, size)
                 )
                 if not known:
-                    return
+                    return False
                 break  # listed finding: go on with the next request
+    return True
 
 
 def run(ctx):
     ctx.set_budget(60, 840)
-    ctx.explore(case_st, lambda c: execute(ctx, c), ctx.scale(2500, 40000))
+    ctx.explore(case_st, lambda c: execute(ctx, c), ctx.scale(1800, 30000))
+    two = st.tuples(case_st, case_st, st.sampled_from(["read_file", "load_server_moduli"])).map(lambda t: (t[0][0], t[0][1], t[1][0], t[1][1], t[2]))
+    ctx.explore(two, lambda c: execute(ctx, c), ctx.scale(500, 8000), seed_offset=1)
 
 
 def replay(ctx, case):
-    execute(ctx, (case["lines"], case["requests"]))
+    if "lines2" in case:
+        execute(ctx, (case["lines"], case["requests"], case["lines2"], case["requests2"], case["how"]))
+    else:
+        execute(ctx, (case["lines"], case["requests"]))
